@@ -113,7 +113,8 @@ def run(names):
 if __name__ == '__main__':
     if sys.argv[1] == 'import':
         if len(sys.argv) > 2:
-            do_import(sys.argv[2], {'a': 'c', 'b': 'd'})
+            letters = sys.argv[3] if len(sys.argv) > 3 else 'cd'
+            do_import(sys.argv[2], {'a': letters[0], 'b': letters[1]})
         else:
             do_import()
     else:
